@@ -38,6 +38,29 @@ theorem rec_recur (p : Prog) (lim : Nat) (h0 : p.get (0, 0) = some (1, true, 1))
   rw [h] at this
   exact (this : LinWitness p.toF).spec
 
+/-- **recurrence, as a translated cycle.**  The certificate behind `rec_recur`, stated outright
+    (definitions in BB/Lemmas/LinRec.lean: `hd p t` is the absolute head position at time `t` of
+    the run from the blank tape, `AgreeW W h c c'` says that `c` and `c'` are in the same state and
+    hold the same cells, relative to their heads, at every absolute position of the window `W`):
+    there are times `n < n + m`, a head displacement `δ` and a window `W` of tape positions such
+    that the configuration at time `n + m` is the configuration at time `n` translated by `δ` on
+    `W`; `W` is closed under translation by `δ`, contains every head position of the interval
+    `[n, n + m]`, and extends to infinity on each side the cycle drifts towards or is bounded
+    there.  This is the "genuine translated-cycle recurrence" of the property. -/
+theorem rec_recur_translated (p : Prog) (lim : Nat) (h0 : p.get (0, 0) = some (1, true, 1))
+    (h : quickTermOrRec p lim = .recur) :
+    ∃ (W : Int → Prop) (δ : Int) (n m : Nat),
+      0 < m ∧ (∀ x, W x → W (x + δ)) ∧
+      (∃ c0 c1, RunAt p.toF n c0 ∧ RunAt p.toF (n + m) c1 ∧ AgreeW W (hd p.toF n) c0 c1) ∧
+      hd p.toF (n + m) = hd p.toF n + δ ∧
+      (∀ t, n ≤ t → t ≤ n + m → W (hd p.toF t)) ∧
+      ((∀ x, W x → W (x + 1)) ∨ ∃ B, ∀ x, W x → x ≤ B) ∧
+      ((∀ x, W x → W (x - 1)) ∨ ∃ B, ∀ x, W x → B ≤ x) := by
+  have := quickTermOrRec_spec p lim h0
+  rw [h] at this
+  obtain ⟨W, δ, n, m, H, hR, hL, _⟩ := (this : LinWitness p.toF)
+  exact ⟨W, δ, n, m, H.mpos, H.closed, H.run0, H.shift, H.win, hR, hL⟩
+
 /- Non-vacuity: the hypotheses are met by a concrete machine for each verdict. -/
 example : quickTermOrRec [((0,0),(1,true,1)), ((1,0),(0,false,1)), ((1,1),(0,false,0))] 100 = .recur := by
   decide
